@@ -239,6 +239,11 @@ class Ctx:
         return verdicts
 
     def _complete_verdicts(self, module, traces, cfg, verdicts, **kw) -> None:
+        """TLC reports only the first violated formula (in cfg order) of a state.  The traces that have a
+        violation are validated again with the formulas reported so far taken out of the cfg, until a
+        round reports nothing new: every violated formula ends up in the verdict (per trace: the formulas
+        violated in its first violating states; a formula first violated later in a trace is found in the
+        round in which the earlier ones are gone)."""
         cfg_path = Path(cfg) if cfg else tlc.SPEC_DIR / f"{module}.cfg"
         if not cfg_path.is_absolute() and not cfg_path.exists():
             cfg_path = tlc.SPEC_DIR / cfg_path
@@ -251,19 +256,32 @@ class Ctx:
                 keep.append(line)
         if len(formulas) < 2:
             return
-        subset = sorted(verdicts)
-        part = [traces[i] for i in subset]
         before = self.traces_validated
-        for kind, name in formulas:
-            one = self.work / f"{module}.only-{name}.cfg"
-            one.write_text("\n".join(keep + [f"{kind} {name}"]) + "\n")
+        subset = sorted(verdicts)
+        removed: set[str] = set()
+        for rnd in range(len(formulas)):
+            found = {n for i in subset for n, _ in verdicts[i]} - removed
+            if not found:
+                break
+            removed |= found
+            rest = [(k, n) for k, n in formulas if n not in removed]
+            if not rest:
+                break
+            part = [traces[i] for i in subset]
+            one = self.work / f"{module}.round{rnd}.cfg"
+            one.write_text("\n".join(keep + [f"{k} {n}" for k, n in rest]) + "\n")
             sub = self.validate(module, part, cfg=str(one), chunk=max(1, len(part)), _single=True, **kw)
+            nxt = []
             for j, lst in sub.items():
                 have = verdicts.setdefault(subset[j], [])
                 for n, step in lst:
                     if all(n != m for m, _ in have):
                         have.append((n, step))
-        self.traces_validated = before  # the second pass re-reads traces that were already counted
+                nxt.append(subset[j])
+            subset = sorted(nxt)
+            if not subset:
+                break
+        self.traces_validated = before  # the extra rounds re-read traces that were already counted
 
     # ---------------------------------------------------------------- bookkeeping
     def sample(self, x: Any, limit: int = 5) -> None:
